@@ -1,16 +1,34 @@
 //! Scheduler mode: run several tasks against one `SharedCore` on a hand-written single-threaded
 //! executor whose polling order is chosen by a deterministic PRNG.
+//!
+//! Two flavours share the executor (`run`):
+//! * writer mode (`sched`): the shared core is a fresh writer core;
+//! * replica mode (`schedr`): the shared core is a replica that has been brought to the writer's
+//!   length sequentially; the tasks apply pre-computed, self-contained block proofs.
+//!
+//! SLOW mode (`slow=MICROS`): whenever a task is seen to be blocked for the first time in a row
+//! (a poll that returned `Pending` without the task having entered or finished a storage
+//! operation, i.e. it waits for the core's lock) the executor sleeps MICROS microseconds of wall
+//! time.  `async_lock::Mutex` lets a releasing task re-acquire the lock ahead of a waiter unless
+//! the waiter has been waiting for more than 500 µs; with `slow` > 500 every waiter is beyond
+//! that threshold the next time it is polled, so the "fair hand-over" paths of the mutex are
+//! exercised as well (without `slow` only the barging paths are).
 
 use std::cell::{Cell, RefCell};
 use std::future::Future;
 use std::pin::Pin;
 use std::rc::Rc;
 use std::task::{Context, Poll};
+use std::time::Duration;
 
-use hypercore::replication::{CoreInfo, CoreMethods, CoreMethodsError, SharedCore};
-use hypercore::Hypercore;
+use hypercore::replication::{
+    CoreInfo, CoreMethods, CoreMethodsError, ReplicationMethods, ReplicationMethodsError,
+    SharedCore,
+};
+use hypercore::{Hypercore, Proof, RequestBlock};
 
 use crate::text::{num, unhex};
+use crate::vecdisk::{lock, SharedDisk};
 use crate::{err_name, get_answer, info_answer};
 
 #[derive(Debug, Clone)]
@@ -20,10 +38,17 @@ pub enum Call {
     Get(u64),
     Has(u64),
     Info,
+    /// `verify_and_apply_proof` of the pre-computed proof number I (replica mode only)
+    Apply(u64),
+    /// `missing_nodes(I)`
+    Missing(u64),
+    /// `create_proof(block {I, 0}, -, -, -)`; only the class of the answer is recorded
+    Prove(u64),
 }
 
-/// Parse `task1 | task2 | …`, each task `call ; call ; …`.
-pub fn parse_tasks(s: &str, nt: usize) -> Option<Vec<Vec<Call>>> {
+/// Parse `task1 | task2 | …`, each task `call ; call ; …`.  `nproofs`: number of pre-computed
+/// proofs (`apply I` needs I < nproofs; 0 in writer mode, where `apply` is therefore rejected).
+pub fn parse_tasks(s: &str, nt: usize, nproofs: u64) -> Option<Vec<Vec<Call>>> {
     let mut tasks = Vec::new();
     if nt == 0 {
         return if s.trim().is_empty() { Some(tasks) } else { None };
@@ -44,6 +69,15 @@ pub fn parse_tasks(s: &str, nt: usize) -> Option<Vec<Vec<Call>>> {
                 ("get", 2) => Call::Get(num(w[1])?),
                 ("has", 2) => Call::Has(num(w[1])?),
                 ("info", 1) => Call::Info,
+                ("apply", 2) => {
+                    let i = num(w[1])?;
+                    if i >= nproofs {
+                        return None;
+                    }
+                    Call::Apply(i)
+                }
+                ("missing", 2) => Call::Missing(num(w[1])?),
+                ("prove", 2) => Call::Prove(num(w[1])?),
                 _ => return None,
             };
             calls.push(c);
@@ -62,6 +96,13 @@ fn core_err(e: &CoreMethodsError) -> String {
     }
 }
 
+fn repl_err(e: &ReplicationMethodsError) -> String {
+    match e {
+        ReplicationMethodsError::HypercoreError(e) => format!("err {}", err_name(e)),
+        ReplicationMethodsError::CoreMethodsError(e) => core_err(e),
+    }
+}
+
 struct Record {
     task: usize,
     call: usize,
@@ -73,16 +114,28 @@ struct Record {
 const MAX_STEPS: u64 = 5_000_000;
 
 /// Returns `Ok("ok rec rec …")` or `Err(answer)`.
-pub fn run(core: Hypercore, seed: u64, tasks: Vec<Vec<Call>>) -> Result<String, String> {
+///
+/// `disk`: the instrumented disk under `core` (its operation / yield counters tell whether a poll
+/// made progress inside the storage layer); `slow_us`: see the module documentation (0 = off).
+pub fn run(
+    core: Hypercore,
+    disk: &SharedDisk,
+    seed: u64,
+    tasks: Vec<Vec<Call>>,
+    proofs: Vec<Proof>,
+    slow_us: u64,
+) -> Result<String, String> {
     let shared = SharedCore::from_hypercore(core);
     let step = Rc::new(Cell::new(0u64));
     let records: Rc<RefCell<Vec<Record>>> = Rc::new(RefCell::new(Vec::new()));
+    let proofs: Rc<Vec<Proof>> = Rc::new(proofs);
 
     let mut futs: Vec<Option<Pin<Box<dyn Future<Output = ()>>>>> = Vec::new();
     for (tid, calls) in tasks.into_iter().enumerate() {
         let sc = shared.clone();
         let step = step.clone();
         let records = records.clone();
+        let proofs = proofs.clone();
         futs.push(Some(Box::pin(async move {
             for (ci, call) in calls.into_iter().enumerate() {
                 // This code runs inside the poll in which the call's future is created and
@@ -103,6 +156,24 @@ pub fn run(core: Hypercore, seed: u64, tasks: Vec<Vec<Call>>) -> Result<String, 
                     },
                     Call::Has(i) => format!("ok {}", sc.has(i).await as u8),
                     Call::Info => info_answer(&sc.info().await),
+                    Call::Apply(i) => {
+                        match sc.verify_and_apply_proof(&proofs[i as usize]).await {
+                            Ok(b) => format!("ok {}", b as u8),
+                            Err(e) => repl_err(&e),
+                        }
+                    }
+                    Call::Missing(i) => match sc.missing_nodes(i).await {
+                        Ok(n) => format!("ok {n}"),
+                        Err(e) => repl_err(&e),
+                    },
+                    Call::Prove(i) => {
+                        let req = RequestBlock { index: i, nodes: 0 };
+                        match sc.create_proof(Some(req), None, None, None).await {
+                            Ok(Some(_)) => "ok proof".to_string(),
+                            Ok(None) => "ok none".to_string(),
+                            Err(e) => repl_err(&e),
+                        }
+                    }
                 };
                 let end = step.get();
                 records.borrow_mut().push(Record {
@@ -136,9 +207,16 @@ pub fn run(core: Hypercore, seed: u64, tasks: Vec<Vec<Call>>) -> Result<String, 
         x.wrapping_mul(0x2545_F491_4F6C_DD1D) >> 32
     };
 
+    let progress = |d: &SharedDisk| {
+        let st = lock(d);
+        (st.ops, st.yields)
+    };
+
     let waker = futures::task::noop_waker();
     let mut cx = Context::from_waker(&waker);
     let mut n: u64 = 0;
+    // was the last poll of the task a "blocked" one (Pending without storage progress)?
+    let mut blocked: Vec<bool> = vec![false; futs.len()];
     loop {
         let alive: Vec<usize> = (0..futs.len()).filter(|i| futs[*i].is_some()).collect();
         if alive.is_empty() {
@@ -150,12 +228,22 @@ pub fn run(core: Hypercore, seed: u64, tasks: Vec<Vec<Call>>) -> Result<String, 
         let pick = alive[(next() % alive.len() as u64) as usize];
         step.set(n);
         n += 1;
+        let before = progress(disk);
         let done = match futs[pick].as_mut() {
             Some(f) => matches!(f.as_mut().poll(&mut cx), Poll::Ready(())),
             None => false,
         };
         if done {
             futs[pick] = None;
+        } else if progress(disk) == before {
+            // Pending, and the task neither finished nor entered a storage operation during
+            // this poll: it waits for the lock of the core.
+            if !blocked[pick] && slow_us > 0 {
+                std::thread::sleep(Duration::from_micros(slow_us));
+            }
+            blocked[pick] = true;
+        } else {
+            blocked[pick] = false;
         }
     }
 
